@@ -398,6 +398,21 @@ def check_worklists(ctx, f, table):
                     for o_ in ops_:
                         if so[0] in b.provenance(o_, through_calls=True).locals:
                             seeds_ok = True
+                if not seeds_ok:
+                    # the explicit form: the seed vector is filled by pushes that are themselves behind `S.insert(..) == true`
+                    wkey = (wo[0], tuple(x for x in wo[1] if x not in ("&", "*")))
+                    seedvecs = {wo[0]}
+                    for (db, si, rec) in b.defs().get(wo[0], []):
+                        if si != "t":
+                            seedvecs |= {l for l in b.provenance(rec["rv"]["o"][0], through_calls=False).locals} if rec["rv"].get("o") else set()
+                    s_guards = [es for last2, es, src2 in guards if last2 == "insert" and (b.operand_origin(src2["t"]["args"][0]) or (None,))[0] == so[0]]
+                    for pb_, pt in b.calls():
+                        pfn = norm_fn(pt.get("fn")) or ""
+                        if pfn.split("::")[-1] in ("push", "push_back") and pb_ != bi:
+                            po = b.operand_origin(pt["args"][0])
+                            if po and po[0] in seedvecs and not any(b.can_reach(x, pb_) and b.can_reach(pb_, x) for x in pops.get(wkey, [])):
+                                if any(es and b.edges_dominate(es, pb_) for es in s_guards):
+                                    seeds_ok = True
                 ctx.ob("R8-visit", k + "|seeds are in the visited set", seeds_ok, t["sp"], "the worklist is initialised from / filtered through the visited set" if seeds_ok else
                        "the worklist is seeded without entering the seeds into the visited set: a seed that is an ancestor of another seed is visited (and collected) twice")
             if not ok and ("R8-visit|" + k) in table:
